@@ -325,6 +325,8 @@ class R:
             arm(f"mtc:{ep}",
                 f"let mut c = ctx::<{Q}>(a); let k = {self.cid}::new(); let r = {call}.map({conv}).map_err(aerr); finish(r, &c)")
 
+        arms_before = len(arms)
+        self.helper_arms(arm)
         arms += self.extra_arms()
         lines = [
             "pub struct P;",
@@ -351,3 +353,77 @@ class R:
 
     def extra_arms(self):
         return []
+
+    def dyn_iface(self, part):
+        """`dyn Trait<Error = .., assoc..>` naming the interface without a contract type."""
+        p = self.p
+        assoc = [f"Error = {part['error']}"]
+        if part["custom_mode"] == "assoc":
+            assoc += [f"ExecC = {cm(p)}", f"QueryC = {cq(p)}"]
+        for (n, t) in part.get("assoc", []):
+            assoc.append(f"{n} = {t}")
+        return f"dyn {part['module']}::{part['trait']}<{', '.join(assoc)}>"
+
+    def helper_arms(self, arm):
+        """Glue for schemas (C16), remote handles (C20) and communication helpers (C10)."""
+        p = self.p
+        sv = self.sv
+        M, Q = cm(p), cq(p)
+        # ---- C16
+        for i, t in enumerate(p["types"]):
+            arm(f"schema_ty:{i}", f"cw_schema_json::<{t.rust}>()")
+        for part in p["parts"]:
+            arm(f"schemas:{part['id']}", f"schemas::<{self.msg_path(part, 'query')}>()")
+            arm(f"schema_for:{part['id']}", f"schema_json::<{self.msg_path(part, 'query')}>()")
+        arm("schemas:w", "schemas::<sv::ContractQueryMsg>()")
+        for kind in KINDS_ENUM:
+            arm(f"schema_for:w:{kind}", f"schema_json::<sv::{WRAP_OF[kind]}>()")
+            for part in p["parts"]:
+                arm(f"schema_for:{part['id']}:{kind}", f"schema_json::<{self.msg_path(part, kind)}>()")
+        # ---- C20
+        arm("remote:c", f"remote_probe::<{self.cid}>(a)")
+        for part in p["parts"][1:]:
+            arm(f"remote:{part['id']}", f"remote_probe::<{self.dyn_iface(part)}>(a)")
+        # ---- C10 executors / queriers
+        for part in p["parts"]:
+            pid = part["id"]
+            if pid == "c":
+                targets = [("c", self.cid, "sv")]
+            else:
+                targets = [("c", self.cid, f"{part['module']}::sv"), ("dyn", self.dyn_iface(part), f"{part['module']}::sv")]
+            for h in part["handlers"]:
+                if not h["safe"] or h["kind"] not in ("exec", "query"):
+                    continue
+                decls = " ".join(f"let a{i}: {self.ty(a['ti'])} = arg(a, {i});" for i, a in enumerate(h["args"]))
+                call_args = ", ".join(f"a{i}" for i in range(len(h["args"])))
+                for tname, tty, modp in targets:
+                    for own in ("owned", "borrowed"):
+                        mk = (f"let remote = {sv}::types::Remote::<{tty}>::new(addr.clone());" if own == "owned"
+                              else f"let remote = {sv}::types::Remote::<{tty}>::borrowed(&addr);")
+                        if h["kind"] == "exec":
+                            arm(f"exec_helper:{h['hid']}:{tname}:{own}",
+                                f"use {modp}::Executor as _; {decls} let addr = Addr::unchecked(a[\"addr\"].as_str().unwrap()); {mk} "
+                                f"let b = remote.executor(); let b = if a[\"funds\"].is_null() {{ b }} else {{ b.with_funds(coins_of(&a[\"funds\"])) }}; "
+                                f"let r = b.{h['name']}({call_args}).map(|x| wasm_json(x.build())).map_err(herr); finish_plain(r)")
+                        else:
+                            deps = "c.deps.as_ref()"
+                            arm(f"query_helper:{h['hid']}:{tname}:{own}",
+                                f"use {modp}::Querier as _; {decls} let addr = Addr::unchecked(a[\"addr\"].as_str().unwrap()); {mk} "
+                                f"let c = ctx::<{Q}>(a); let k = {self.cid}::new(); "
+                                f"let rq = RecQuerier::new(|_addr, msg| {sv}::cw_multi_test::Contract::<{M}, {Q}>::query(&k, {deps}, c.env.clone(), msg.to_vec()).map_err(|e| format!(\"{{e:#}}\"))); "
+                                f"let qw = {sv}::cw_std::QuerierWrapper::<{Q}>::new(&rq); "
+                                f"let r = remote.querier(&qw).{h['name']}({call_args}).map(|v| json!({{\"value\": j(&v)}})).map_err(herr); "
+                                f"let mut out = finish_plain(r); out[\"requests\"] = svmon::serde_json::Value::Array(rq.log.borrow().clone()); out")
+        # ---- C10 instantiate builder
+        inst = [h for h in p["parts"][0]["handlers"] if h["kind"] == "instantiate"][0]
+        decls = " ".join(f"let a{i}: {self.ty(a['ti'])} = arg(a, {i});" for i, a in enumerate(inst["args"]))
+        call_args = "".join(f", a{i}" for i in range(len(inst["args"])))
+        snake = "".join(("_" + ch.lower()) if ch.isupper() and i else ch.lower() for i, ch in enumerate(self.cid))
+        arm("inst_builder",
+            f"use sv::{self.cid}InstantiateBuilder as _; {decls} "
+            f"let r = {sv}::builder::instantiate::InstantiateBuilder::{snake}(a[\"code_id\"].as_u64().unwrap(){call_args}).map(|mut b| {{ "
+            "if let Some(l) = a[\"label\"].as_str() { b = b.with_label(l); } "
+            "if let Some(ad) = a[\"admin\"].as_str() { b = b.with_admin(ad.to_owned()); } "
+            "if !a[\"funds\"].is_null() { b = b.with_funds(coins_of(&a[\"funds\"])); } "
+            "match a[\"salt\"].as_str() { Some(s) => wasm_json(b.build2(Binary::from_base64(s).unwrap())), None => wasm_json(b.build()) } "
+            "}).map_err(herr); finish_plain(r)")
